@@ -24,6 +24,52 @@ def real_blocks():
     return out
 
 
+def node_level(ck, tier):
+    from skepticoin.humans import human
+    """checkpoints on the path blocks take into a node: with a (test) horizon and checkpoints in force, a competing block
+    at a checkpointed height is refused whether it is relayed or arrives as a reply during a bulk download -- also when the
+    node's chain already extends far past that height (bulk-download validation interval patched to 4 = the checkpointed
+    height, as 10,000 divides the real checkpoint heights)"""
+    import sys
+    import nodeharness
+    import simnet
+    from skepticoin.networking import messages as M
+    rng = ck.rng
+    keys = chaingen.Keys()
+    with chaingen.Env(period=50) as env0:
+        tg = chaingen.TreeGen(env0, keys, rng)
+        n = tg.genesis
+        for _ in range(7):
+            n = tg.extend(n, txs=[], fees=0, dt=100)
+        main = list(tg.nodes)
+        sib = tg.extend(main[3], txs=[], fees=0, dt=101)          # competing, otherwise fully valid block at height 4
+        sib_child = tg.extend(sib, txs=[], fees=0, dt=100)
+    known = {0: human(main[0].id), 4: human(main[4].id)}
+    from skepticoin.networking import local_peer as _lp, remote_peer as _rp, manager as _mg, params as _np   # noqa (loaded before patching)
+    patched = []
+    for mn, mod in list(sys.modules.items()):
+        if mn.startswith('skepticoin.networking') and mod is not None and 'IBD_VALIDATION_SKIP' in getattr(mod, '__dict__', {}):
+            patched.append((mod, mod.IBD_VALIDATION_SKIP))
+            mod.IBD_VALIDATION_SKIP = 4
+    try:
+        with chaingen.Env(period=50, hz=4, known=known) as env:
+            for irt in (0, 73):
+                with simnet.Net(seed=rng.getrandbits(30), t0=main[-1].view.time + 5000) as net:
+                    sn = nodeharness.SingleNode(net, chaingen.impl_state_from(main), [m.block for m in main[1:]], npeers=2)
+                    sn.new_messages()
+                    for blk_node in (sib, sib_child):
+                        sn.deliver(rng.randrange(2), M.DataMessage(M.DATA_BLOCK, blk_node.block), irt=irt)
+                    st = sn.observe()
+                    ck.case(('node-checkpoint', irt), kind='node-level/%s/competing-block-at-checkpoint' % ('reply' if irt else 'relayed'))
+                    if sib.id in st['blocks']:
+                        ck.violation('checkpoint-not-enforced', 'a node whose chain reaches height %d accepts a competing block at the '
+                                     'checkpointed height 4 delivered as a %s' % (main[-1].height, 'reply during a bulk download' if irt else 'relayed block'),
+                                     {'kind': 'node-checkpoint', 'in_response_to': irt, 'block': sib.block.serialize().hex()})
+    finally:
+        for mod, val in patched:
+            mod.IBD_VALIDATION_SKIP = val
+
+
 def run(tier, seed):
     ck = common.Check('C18', tier, seed)
     ck.rule = ('(a) genesis + every recorded real block: id vs file name / checkpoint 0, byte-identical re-encoding, full '
@@ -294,6 +340,13 @@ def run(tier, seed):
                 reqs.append(('chain', tbl, [env.params_sx(), [[0, m.block.serialize()] for m in main] +
                                             [[1, fb.block.serialize(), fb.view.time]], 0]))
                 meta.append(('test-horizon fork at height %d' % h, v, rp))
+    try:
+        node_level(ck, tier)
+    except Exception:
+        import traceback
+        tb = traceback.format_exc()
+        if 'could not mine a block' not in tb:
+            ck.disagree('node-level checkpoint probe crashed: %s' % tb[-500:], {})
     if r.ok:
         outs = model.run_batch(reqs)
         for (what, want, rp), o in zip(meta, outs):
